@@ -62,7 +62,15 @@ package wallet
 //@   method Address
 //@     requires recv != nil
 //@     ensures result == accAddr(recv) && result != nil
+//@   method SignData
+//@     requires recv != nil
 //@ end
+
+// VerifySignature forwards to the backend registered for the address' backend id (registry lookup and third-party verifier:
+// trusted frame; used as the callee of the sim channel backend's Verify, C15).
+//@ func VerifySignature
+//@   trusted
+//@   requires a != nil
 
 //@ func IndexOfAddrs
 //@   requires forall i int :: 0 <= i && i < len(addrs) ==> addrMapNonNil(addrs[i])
